@@ -311,7 +311,7 @@ func TestGovcReplay(govcT *testing.T) {
 		o.Status = "sat"
 		o.Model = txt
 		o.Output = txt
-	case strings.Contains(txt, "GOVC-REGEN-ERROR") || !strings.Contains(txt, "ok  \t"):
+	case strings.Contains(goTestOutput(txt), "GOVC-REGEN-ERROR") || !strings.Contains(goTestOutput(txt), "ok  \t"):
 		o.Status = "error"
 		o.Output = txt
 	}
@@ -338,4 +338,11 @@ func TestGovcReplay(govcT *testing.T) {
 	o2.Fn = "types_string.go"
 	run.items = append(run.items, workItem{fr, o2})
 	run.trusted["clause 2 of C20 is decided by running the repository's own stringer on the checked-in types.go and comparing with types_string.go (evaluation of a closed statement, not deduction)"] = true
+}
+
+func goTestOutput(report string) string {
+	if i := strings.LastIndex(report, "go test output:"); i >= 0 {
+		return report[i:]
+	}
+	return report
 }
